@@ -34,3 +34,6 @@ MANIFEST_ENTRY = {
             "they are exhaustive for that universe, not unbounded - stated as such. Histories on real collections (append/remove/groups/merge/undo/redo/delay blocks/save-restore) with WF after every step are the bounded stand-in.",
     "note": "Finite universe, callee contracts for hub/add_subset/delete, executor trusted. The unbounded claim (any number of datasets and groups) is NOT made; merge and pointer properties are bounded only.",
 }
+
+MANIFEST_ENTRY['text'] += ' ApplySubsetState / ApplyROI do+undo are proved to leave the registry symmetric, also when a pre-existing group was removed between do and undo.'
+TRUSTED_BASE.append('command contracts (shared with C13): finite heap model of the collection API (<= 2 datasets, <= 2 pre-existing groups, the applied update may create one group)')
